@@ -576,8 +576,8 @@ def run_structure(ctx, stream, tables):
     model = []
     for o in outs:
         try:
-            fb, nodes = loads(o)
-            model.append(json.dumps(canon_graph(nodes, set(fb))))
+            root, fb, nodes = loads(o)
+            model.append(json.dumps(canon_graph(nodes, set(fb), root)))
         except Exception:  # noqa
             model.append("unreadable:" + o[:200])
     impl = [json.dumps(r["real"]) for _, r in keep]
